@@ -73,6 +73,8 @@ class TrajectoryRun:
 
     # ---------------------------------------------------------------- seams
     def _before_query(self, name, a, k):
+        if getattr(self, 'extra_before', None) is not None:
+            self.extra_before(name, a, k)
         if self.await_mb and self.ctx is not None:
             self.ctx['X_mb'] = np.array(self.ctx['X_ref'], copy=True)
             self.await_mb = False
